@@ -32,14 +32,17 @@ struct Viol
 {
     PM          props;
     std::string what;
-    int         lost{0}; // > 0: this deviation is "live key <lost> disappeared" and nothing else
+    int         lost{0};   // > 0: this deviation is "live key <lost> disappeared" and nothing else
+    int         rejkey{0}; // > 0: the C09 part of props comes from an earlier rejected insert on this key and
+                           // must be confirmed against the history without that insert (see seqmc.cpp)
 };
 
 struct ME
 {
     uint8_t present{0}; // the model expects lookups to find it while now < deadline
     uint8_t inE{0};     // expired and possibly still physically resident
-    uint8_t rej{0};     // C09 runs: a rejected insert hit this live entry since its last write
+    uint8_t  rej{0};     // C09 runs: a rejected insert hit this live entry since its last write
+    uint64_t rejmask{0}; // ... at these history positions (not part of the state key)
     int     wid{-1};
     int64_t deadline{INF_NS};
     int     uses{0};
@@ -63,6 +66,7 @@ struct Knobs
 {
     int  cmax{3};       // use-count cap (lfu/lfuda environment restriction)
     bool track_rej{false};
+    int  depth{0};      // position of the operation being judged in its history
 };
 
 template<CK ck>
@@ -210,12 +214,15 @@ struct Spec
         int ewid[MAXK + 1];
         PM  losetag[MAXK + 1];
         PM  phantag[MAXK + 1];
+        bool rejtag[MAXK + 1] = {};
         for (int k = 1; k <= U; k++)
         {
             expect[k]  = liveb[k] ? 1 : 0;
             ewid[k]    = m.e[k].wid;
-            losetag[k] = LOSE | (m.e[k].rej ? P(9) : 0);
-            phantag[k] = P(1) | (m.e[k].inE ? P(4) : 0) | ((m.e[k].inE && m.e[k].rej) ? P(9) : 0);
+            // (C09's "a rejected insert leaves the expiry unchanged" is attributed only at clock steps, where
+            // the one thing that can make the entry vanish early or linger is a moved deadline - see Advance)
+            losetag[k] = LOSE;
+            phantag[k] = P(1) | (m.e[k].inE ? P(4) : 0);
         }
         bool is_api        = true;  // a public API call (as opposed to a clock step)
         bool clear_E_after = false; // clean_expired_values: E is emptied after the C02 bound was evaluated
@@ -225,6 +232,7 @@ struct Spec
             e.present = 1;
             e.inE     = 0;
             e.rej     = 0;
+            e.rejmask = 0;
             e.wid     = w;
             e.deadline = dl;
             e.uses    = 1;
@@ -237,6 +245,7 @@ struct Spec
             e.present  = 1;
             e.inE      = 0;
             e.rej      = 0;
+            e.rejmask  = 0;
             e.wid      = w;
             e.deadline = dl;
             e.uses += 1;
@@ -278,10 +287,12 @@ struct Spec
                         e.inE      = 1;
                         expect[k]  = 0;
                         phantag[k] = P(1) | P(4) | (e.rej ? P(9) : 0);
+                        rejtag[k]  = e.rej;
                     }
                     else if (e.present)
                     {
                         losetag[k] = P(5) | P(3) | (e.rej ? P(9) : 0);
+                        rejtag[k]  = e.rej;
                     }
                 }
                 break;
@@ -328,8 +339,11 @@ struct Spec
                         if (ok)
                             V(P(9), "allow::insert on a live key reported success");
                         losetag[k] |= P(9);
-                        if (kn.track_rej && !ok)
+                        if (kn.track_rej && !ok && op.k == OpK::Insert && kn.depth < 64)
+                        {
                             m.e[k].rej = 1;
+                            m.e[k].rejmask |= 1ull << kn.depth;
+                        }
                     }
                 }
                 else
@@ -438,6 +452,7 @@ struct Spec
                                         m.e[victim].present = 0;
                                         m.e[victim].inE     = 0;
                                         m.e[victim].rej     = 0;
+                                        m.e[victim].rejmask = 0;
                                         if (ob.size != cap)
                                             V(P(3) | P(2), "size() is not capacity() after an evicting insert");
                                     }
@@ -511,6 +526,7 @@ struct Spec
                         m.e[k].present = 0;
                         m.e[k].inE     = 0;
                         m.e[k].rej     = 0;
+                        m.e[k].rejmask = 0;
                     }
                     else
                     {
@@ -588,7 +604,7 @@ struct Spec
                         {
                             snprintf(
                                 buf, sizeof buf, "lookup of key %d returned write %d, latest write is %d", k, wid, m.e[k].wid);
-                            V(P(1) | (m.e[k].rej ? P(9) : 0), buf);
+                            V(P(1), buf);
                         }
                         if (touch)
                         {
@@ -663,6 +679,7 @@ struct Spec
                     m.e[k].present = 0;
                     m.e[k].inE     = 0;
                     m.e[k].rej     = 0;
+                    m.e[k].rejmask = 0;
                     expect[k]      = 0;
                     phantag[k]     = P(20) | P(1);
                 }
@@ -682,12 +699,12 @@ struct Spec
                 if (expect[k] == 0)
                 {
                     snprintf(buf, sizeof buf, "key %d is found but has no live entry in the model", k);
-                    V(phantag[k], buf);
+                    vs.push_back(Viol{phantag[k], buf, 0, (rejtag[k] && (phantag[k] & P(9))) ? k : 0});
                 }
                 else if (expect[k] == 1 && !T.is_set && se.wid != (g_val_eq_mode ? k : ewid[k]))
                 {
                     snprintf(buf, sizeof buf, "key %d holds write %d, latest successful write is %d", k, se.wid, ewid[k]);
-                    V(P(1) | (m.e[k].rej || (losetag[k] & P(9)) ? P(9) : 0), buf);
+                    V(P(1) | ((losetag[k] & P(9)) ? P(9) : 0), buf);
                 }
                 if constexpr (is_lfu)
                 {
@@ -701,7 +718,7 @@ struct Spec
             else if (expect[k] == 1)
             {
                 snprintf(buf, sizeof buf, "live key %d is no longer found", k);
-                vs.push_back(Viol{losetag[k], buf, k});
+                vs.push_back(Viol{losetag[k], buf, k, (rejtag[k] && (losetag[k] & P(9))) ? k : 0});
             }
         }
 
